@@ -36,6 +36,24 @@ def noObjsList : List Json → Bool
   | x :: xs => noObjs x && noObjsList xs
 end
 
+def keysNodup0 : List (String × Json) → Bool
+  | [] => true
+  | (k, _) :: t => !(t.any fun kv => kv.1 == k) && keysNodup0 t
+
+/- no duplicate member keys at any depth (what makes `any` re-encoding, which sorts keys, harmless) -/
+mutual
+def wfDeep : Json → Bool
+  | .obj kvs => keysNodup0 kvs && wfDeepMembers kvs
+  | .arr xs => wfDeepList xs
+  | _ => true
+def wfDeepList : List Json → Bool
+  | [] => true
+  | x :: xs => wfDeep x && wfDeepList xs
+def wfDeepMembers : List (String × Json) → Bool
+  | [] => true
+  | (_, v) :: t => wfDeep v && wfDeepMembers t
+end
+
 def keysNodup : List (String × Json) → Bool
   | [] => true
   | (k, _) :: t => !(t.any fun kv => kv.1 == k) && keysNodup t
@@ -96,7 +114,7 @@ def den : Nat → Schemas → Ty → Json → Bool
     match t with
     | .scalar kind _ _ m =>
       if kind = "bytes" then false
-      else if kind = "any" then anyExact j && noObjs j
+      else if kind = "any" then anyExact j && wfDeep j
       else if hasHint m "string_format_datetime" then
         (m.nullable && j.isNull) || (match j with | .str _ => kind = "string" | _ => false)
       else (m.nullable && j.isNull) || denScalar kind j
